@@ -177,6 +177,14 @@ def tunnel_step(a0: int, a1: int, a2: int, b0: int, b1: int, b2: int, c0: int, c
     read_u = uin if (uin is not None and not us.inq) else b''
     read_c = cin if (cin is not None and not cs.inq) else b''
     if not td:
+        # progress: whatever else is pending (also towards a peer that does not take data right now), a segment whose descriptor
+        # the selector may report readable is read in this iteration - the proxy never stops listening to one side of a tunnel
+        if uin is not None and (mask & 4) and us.inq:
+            return fail('upstream had unread bytes and was selectable, but the proxy did not read them (not registered for reading?)',
+                        pending_up=len(pu0), pending_client=len(pc0))
+        if cin is not None and (mask & 1) and cs.inq:
+            return fail('client had unread bytes and was selectable, but the proxy did not read them (not registered for reading?)',
+                        pending_up=len(pu0), pending_client=len(pc0))
         if cs.out[len(ACK):] + envkit.pending(h.work) != pc0 + read_u:
             return fail('client direction: delivered + pending != previously pending + newly read upstream bytes',
                         out=repr(cs.out[len(ACK):]), pend=repr(envkit.pending(h.work)))
